@@ -312,14 +312,16 @@ def run_crash(spec, res, sim):
         moves = [i + 1 for i, w in enumerate(where) if w.startswith('move:')]
         critical = sorted({k for m in moves for k in range(m - 7, m + 8) if 1 <= k <= total[shape] and k % 2 == half})
         step = max(1, len(mine) // 5)
-        mine = [(shape, k) for k in critical] + mine[rng.randrange(step) :: step]
-        mine = sorted(set(mine))
+        crit = [(shape, k) for k in critical]
+        # the critical window is always enumerated completely; the spread sample only while time remains
+        mine = crit + [p for p in mine[rng.randrange(step) :: step] if p not in set(crit)]
         res.count('critical_window_points', len(critical))
     else:
+        crit = []
         res.extra['exhaustive_crash_points'] = True
     n = 0
     for shape, k in mine:
-        if spec['tier'] != 'thorough' and res.elapsed() > spec['budget'] * 2.2 and n >= 5:
+        if spec['tier'] != 'thorough' and res.elapsed() > spec['budget'] * 2.2 and n >= 5 and (shape, k) not in set(crit):
             break
         root = base + f'-s{shape}k{k}'
         shutil.copytree(base, root)
